@@ -17,4 +17,6 @@ PY
 # warm the Go build cache for the harnessed packages
 PKGS=$(cd /verif/harness && find . -name 'zz_verif_*_test.go' -printf '%h\n' | sort -u)
 ( cd /repo && go test -overlay /verif/build/overlay.json -tags verif -vet=off -count=1 -run '^$' $PKGS 2>&1 | tail -5 )
+# the C46 check runs a short pass under the race detector: build the instrumented package once here
+( cd /repo && timeout 1500 go test -race -overlay /verif/build/overlay.json -tags verif -vet=off -count=1 -run '^$' ./daemon/kmd/wallet/driver 2>&1 | tail -2 )
 exit 0
